@@ -216,7 +216,7 @@ def run(ctx):
         warn = [w for w in rr.warnings if "issing atoms or failed protonation" in w[1]]
         conf = rr.mol.conformations[rr.mol.conformation_names[0]]
         # complements per complete residue with chain neighbours
-        expected = complement_table(res_list)
+        expected = complement_table(res_list, idx)
         for a in conf.atoms:
             if a.element == "H":
                 continue
@@ -286,9 +286,32 @@ FULL = {"HIS": {"N", "CA", "C", "O", "CB", "CG", "ND1", "CD2", "CE1", "NE2"},
 SIDE = {"HIS": {"ND1": 1, "NE2": 1}, "ARG": {"NE": 1, "NH1": 2, "NH2": 2}, "ASN": {"ND2": 2}, "GLN": {"NE2": 2}, "TRP": {"NE1": 1}}
 
 
-def complement_table(res_list):
-    """{(residue pos, atom name): expected hydrogens} for complete residues whose chain neighbours are present."""
+NEIGHBOURS = {"N": 2, "ND1": 2, "NE2": 2, "NE": 2, "NH1": 1, "NH2": 1, "ND2": 1, "NE1": 2}
+GLN_NE2 = 1
+
+
+def regular_geometry(idx):
+    """{line index of a heavy atom: number of heavy atoms within the 2.0 A bond criterion, all of them at 1.2-1.6 A}
+    (-1 when a neighbour is at an irregular distance).  Independent integer arithmetic on the input coordinates."""
+    import numpy as np
+    ids = [i for i, r in enumerate(idx.recs) if r is not None]
+    pts = np.array([[idx.recs[i].x, idx.recs[i].y, idx.recs[i].z] for i in ids], dtype=np.int64)
     out = {}
+    for k0 in range(0, len(ids), 500):
+        d = pts[k0:k0 + 500, None, :] - pts[None, :, :]
+        d2 = (d * d).sum(axis=2)
+        for a in range(d2.shape[0]):
+            near = np.where((d2[a] < 2000 * 2000) & (d2[a] > 0))[0]
+            ok = all(1200 * 1200 <= d2[a][j] <= 1600 * 1600 for j in near)
+            out[ids[k0 + a]] = len(near) if ok else -1
+    return out
+
+
+def complement_table(res_list, idx=None):
+    """{(residue pos, atom name): expected hydrogens} for complete residues with regular covalent geometry whose
+    chain neighbours are present."""
+    out = {}
+    reg = regular_geometry(idx) if idx is not None else None
     # chain members: amino-acid residues, also when written as HETATM (selenomethionine, phosphoserine ...)
     prot = [r for r in res_list if r["het"] == 0 or {"N", "CA", "C"} <= set(r["names"])]
     for k, r in enumerate(prot):
@@ -299,10 +322,27 @@ def complement_table(res_list):
         has_prev = (prev is not None and r["ter"] == 0 and prev["chain"] == r["chain"] and prev["model"] == r["model"]
                     and "C" in prev["names"] and not ({"OXT", "O''"} & set(prev["names"]))
                     and (prev["num"] in (r["num"], r["num"] - 1)))
-        if r["resn"] in FULL and FULL[r["resn"]] <= names:
+        def regular(an):
+            if reg is None:
+                return True
+            line = r["ids"][r["names"].index(an)]
+            want = 1 if (r["resn"] == "GLN" and an == "NE2") else NEIGHBOURS[an]
+            return reg.get(line) == want
+        def ring_regular():
+            """no spurious or missing bond inside the residue: heavy-atom pairs within the 2.0 A criterion = template bonds"""
+            if idx is None:
+                return True
+            want = {"HIS": 10, "ARG": 10, "ASN": 7, "GLN": 8, "TRP": 15}[r["resn"]]
+            sel = [j for j, nm in zip(r["ids"], r["names"]) if nm in FULL[r["resn"]]]
+            pts = [(idx.recs[j].x, idx.recs[j].y, idx.recs[j].z) for j in sel]
+            cnt = sum(1 for a in range(len(pts)) for b in range(a + 1, len(pts))
+                      if sum((pts[a][c] - pts[b][c]) ** 2 for c in range(3)) < 2000 * 2000)
+            return cnt == want
+        if r["resn"] in FULL and FULL[r["resn"]] <= names and ring_regular():
             for an, n in SIDE[r["resn"]].items():
-                out[(r["pos"], an)] = n
-        if has_prev and r["resn"] != "PRO" and {"N", "CA", "C"} <= names:
+                if regular(an):
+                    out[(r["pos"], an)] = n
+        if has_prev and r["resn"] != "PRO" and {"N", "CA", "C"} <= names and regular("N"):
             out[(r["pos"], "N")] = 1
     return out
 
